@@ -62,8 +62,8 @@ def obligations(tier):
         obs.append(server(ih, oh))
     if full:
         obs.append(client(3, 3, 0, 0)); obs.append(client(1, 4, 0, 0)); obs.append(client(3, 0, 0, 1)); obs.append(client(3, 0, 1, 0, **KF_T)); obs.append(client(1, 0, 1, 0, timeout=-1))
-        for ih, oh in ((3, 3), (1, 4), (4, 3)): obs.append(server(ih, oh))
+        for ih, oh in ((1, 4), (4, 3)): obs.append(server(ih, oh))
         for o in list(obs):
-            if o["name"] in ("client_out0_in0_accepted_reply", "server_in0_out0"):
+            if o["name"] in ("client_out0_in0_accepted_reply",):
                 t = dict(o); t["name"] += "_ndebug"; t["ndebug"] = True; t["desc"] += " [NDEBUG build]"; obs.append(t)
     return obs
